@@ -10,7 +10,7 @@ open Finset
 section sums
 variable {K : Type} [CommRing K]
 
-theorem sumRange_eq_sum (n : Nat) (f : Nat → K) : sumRange n f = ∑ i ∈ range n, f i := by
+theorem sumRange_eq_finset (n : Nat) (f : Nat → K) : sumRange n f = ∑ i ∈ range n, f i := by
   induction n with
   | zero => simp [sumRange]
   | succ n ih => rw [sumRange_succ, Finset.sum_range_succ, ih]
@@ -33,10 +33,10 @@ theorem sum_rot (n h : Nat) (hh : h ≤ n) (g : Nat → K) :
       rw [Nat.mod_eq_of_lt (by have := Finset.mem_range.mp hx; omega)]; omega
     simp only [this]
 
-/-- the same with `Int` indices as used by the model: `ifftshiftIdx n a = (a + n/2) % n` -/
+/-- the same with `Int` indices as used by the model: `npIfftshiftIdx n a = (a + n/2) % n` -/
 theorem sumRange_rot (S : Int) (hS : 0 < S) (g : Int → K) :
-    sumRange S.toNat (fun a => g (ifftshiftIdx S a)) = sumRange S.toNat (fun a => g a) := by
-  rw [sumRange_eq_sum, sumRange_eq_sum]
+    sumRange S.toNat (fun a => g (npIfftshiftIdx S a)) = sumRange S.toNat (fun a => g a) := by
+  rw [sumRange_eq_finset, sumRange_eq_finset]
   obtain ⟨n, rfl⟩ : ∃ n : Nat, S = n := ⟨S.toNat, by omega⟩
   simp only [Int.toNat_natCast]
   have hh : n / 2 ≤ n := Nat.div_le_self n 2
@@ -56,10 +56,10 @@ def RootPeriodic (K R : Type) [Field R] [RealLike R] [CommRing K] [CxLike K R] :
 
 /-- the FFT kernel at rotated input index / rotated output index is the centred kernel -/
 theorem rootPow_rot (hper : RootPeriodic K R) (n a u : Int) :
-    (rootPow (R := R) n (a * fftshiftIdx n u) : K) =
-      rootPow (R := R) n ((ifftshiftIdx n a - n / 2) * (u - n / 2)) := by
+    (rootPow (R := R) n (a * npFftshiftIdx n u) : K) =
+      rootPow (R := R) n ((npIfftshiftIdx n a - n / 2) * (u - n / 2)) := by
   apply hper
-  unfold fftshiftIdx ifftshiftIdx
+  unfold npFftshiftIdx npIfftshiftIdx
   have h1 : (a + n / 2) % n - n / 2 ≡ a [ZMOD n] := by
     have := (Int.mod_modEq (a + n / 2) n).sub_right (n / 2)
     simpa using this
@@ -77,8 +77,8 @@ theorem dftKernel_one_div (hcast : ∀ n : Int, (RealLike.ofInt n : R) = (n : R)
 theorem fft_sum_eq_dft_sum (hcast : ∀ n : Int, (RealLike.ofInt n : R) = (n : R)) (hper : RootPeriodic K R)
     (x : Arr K) (hS0 : 0 < x.s0) (hS1 : 0 < x.s1) (u v : Int) :
     (sumRange x.s1.toNat fun b =>
-      (sumRange x.s0.toNat fun a => (rootPow (R := R) x.s0 (a * fftshiftIdx x.s0 u) : K) *
-          x.get (ifftshiftIdx x.s0 a) (ifftshiftIdx x.s1 b)) * rootPow (R := R) x.s1 (b * fftshiftIdx x.s1 v)) =
+      (sumRange x.s0.toNat fun a => (rootPow (R := R) x.s0 (a * npFftshiftIdx x.s0 u) : K) *
+          x.get (npIfftshiftIdx x.s0 a) (npIfftshiftIdx x.s1 b)) * rootPow (R := R) x.s1 (b * npFftshiftIdx x.s1 v)) =
     (sumRange x.s1.toNat fun y =>
       (sumRange x.s0.toNat fun x' => (dftKernel (1 / (x.s0 : R)) x.s0 x.s0 0 0 x' u : K) * x.get x' y) *
         dftKernel (1 / (x.s1 : R)) x.s1 x.s1 0 0 y v) := by
@@ -91,7 +91,7 @@ theorem fft_sum_eq_dft_sum (hcast : ∀ n : Int, (RealLike.ofInt n : R) = (n : R
   congr 1
   -- rotate the inner index
   rw [← sumRange_rot x.s0 hS0 (fun x' : Int =>
-      (dftKernel (1 / (x.s0 : R)) x.s0 x.s0 0 0 x' u : K) * x.get x' (ifftshiftIdx x.s1 b))]
+      (dftKernel (1 / (x.s0 : R)) x.s0 x.s0 0 0 x' u : K) * x.get x' (npIfftshiftIdx x.s1 b))]
   apply sumRange_congr; intro a _
   rw [dftKernel_one_div hcast, ← rootPow_rot hper]
 end kernel
